@@ -25,6 +25,11 @@ Lemma min_objs_facts :
   2 <= min_objs_per_msg /\ 0 < Z.quot min_objs_per_msg 2 /\ 2 * Z.quot min_objs_per_msg 2 <= min_objs_per_msg.
 Proof. unfold min_objs_per_msg. cbn. lia. Qed.
 
+(* the give-up test of the current plugin.go is `<=` (with `<` a chunk of exactly the minimum
+   that does not fit is scaled down, floored back to the minimum and retried for ever) *)
+Lemma gives_up_spec n : gives_up n = (n <=? min_objs_per_msg).
+Proof. reflexivity. Qed.
+
 (* ------------------------------------------------------------------ *)
 (** * recalcObjsPerSyncMsg *)
 
@@ -44,7 +49,7 @@ Lemma recalc_dec pods ctrs maxLen msgLen pods' ctrs' :
   recalc pods ctrs maxLen msgLen = Some (pods', ctrs') ->
   0 <= pods' /\ 0 <= ctrs' /\ pods' + ctrs' < pods + ctrs.
 Proof.
-  intros Hp Hc Hl. unfold recalc, count_bound in *.
+  intros Hp Hc Hl. unfold recalc, count_bound in *. rewrite gives_up_spec.
   destruct min_objs_facts as [M2 [Mq Mh]].
   destruct (Z.leb_spec (pods + ctrs) min_objs_per_msg) as [|Hmin]; [discriminate|].
   destruct ((msgLen =? 0) || (maxLen =? 0) || (msgLen <=? maxLen)); [discriminate|].
@@ -76,7 +81,7 @@ Lemma recalc_zero pods ctrs maxLen msgLen pods' ctrs' :
   recalc pods ctrs maxLen msgLen = Some (pods', ctrs') ->
   (pods' = 0 -> pods = 0) /\ (ctrs' = 0 -> ctrs = 0).
 Proof.
-  intros Hp Hc. unfold recalc. destruct min_objs_facts as [M2 [Mq Mh]].
+  intros Hp Hc. unfold recalc. rewrite gives_up_spec. destruct min_objs_facts as [M2 [Mq Mh]].
   destruct (pods + ctrs <=? min_objs_per_msg); [discriminate|].
   destruct ((msgLen =? 0) || (maxLen =? 0) || (msgLen <=? maxLen)); [discriminate|].
   set (sp := sync_scale pods _). set (sc := sync_scale ctrs _).
@@ -87,7 +92,7 @@ Qed.
 Lemma recalc_min pods ctrs maxLen msgLen :
   0 < maxLen < msgLen -> recalc pods ctrs maxLen msgLen = None -> pods + ctrs <= min_objs_per_msg.
 Proof.
-  intros Hl. unfold recalc.
+  intros Hl. unfold recalc. rewrite gives_up_spec.
   destruct (Z.leb_spec (pods + ctrs) min_objs_per_msg); [intros; assumption|].
   replace ((msgLen =? 0) || (maxLen =? 0) || (msgLen <=? maxLen)) with false
     by (symmetry; destruct (Z.eqb_spec msgLen 0); destruct (Z.eqb_spec maxLen 0); destruct (Z.leb_spec msgLen maxLen); cbn; lia).
